@@ -7,19 +7,47 @@ open Py
 
 /-! ### basic facts about single steps -/
 
-theorem afterLocal_isB (q : Str) (todo : List ClassId) (acc : Index) :
-    (afterLocal q todo acc).isB = false := by
+theorem afterLocal_isB (g : Goal) (todo : List ClassId) (acc : Index) :
+    (afterLocal g todo acc).isB = false := by
   cases todo <;> rfl
 
-theorem afterLocal_isR (q : Str) (todo : List ClassId) (acc : Index) :
-    (afterLocal q todo acc).isR = false := by
+theorem afterLocal_isR (g : Goal) (todo : List ClassId) (acc : Index) :
+    (afterLocal g todo acc).isR = false := by
   cases todo <;> rfl
 
-/-- a thread inside `find_types` stays outside `build`/`reset` and leaves the cache alone -/
+theorem enter_isB (s : CState) (g : Goal) : (g.enter s).isB = false := by cases g <;> rfl
+theorem enter_isR (s : CState) (g : Goal) : (g.enter s).isR = false := by cases g <;> rfl
+
+/-- the thread is inside the scan of `find_type_by_fields` -/
+def TState.isS : TState → Bool
+  | .sScan _ _ _ _ _ => true
+  | _ => false
+
+def Goal.isLookup : Goal → Bool
+  | .lookup _ _ => true
+  | .scan _ => false
+
+/-- the thread is not on its way into / inside the scan of `find_type_by_fields` -/
+def TState.lk : TState → Bool
+  | .xCheck g => g.isLookup
+  | .xLocal g _ _ => g.isLookup
+  | .xPublish g _ => g.isLookup
+  | .xStamp g => g.isLookup
+  | .sScan _ _ _ _ _ => false
+  | _ => true
+
+theorem afterLocal_lk (g : Goal) (todo : List ClassId) (acc : Index) :
+    (afterLocal g todo acc).lk = g.isLookup := by
+  cases todo <;> rfl
+
+theorem enter_lk (s : CState) (g : Goal) : (g.enter s).lk = g.isLookup := by cases g <;> rfl
+
+/-- a thread inside `find_types` (not a by-fields scan) stays outside
+`build`/`reset`/scan and leaves the cache alone -/
 theorem stepT_notBR (U : Universe) (w : World) (s : CState) (st : TState) (hb : st.isB = false)
-    (hr : st.isR = false) :
+    (hr : st.isR = false) (hs : st.lk = true) :
     (stepT U w s st).2.isB = false ∧ (stepT U w s st).2.isR = false ∧
-      (stepT U w s st).1.cache = s.cache := by
+      (stepT U w s st).2.lk = true ∧ (stepT U w s st).1.cache = s.cache := by
   cases st with
   | bCheck _ _ => simp [TState.isB] at hb
   | bWrite _ _ => simp [TState.isB] at hb
@@ -27,20 +55,23 @@ theorem stepT_notBR (U : Universe) (w : World) (s : CState) (st : TState) (hb : 
   | rCache => simp [TState.isR] at hr
   | rXsi _ => simp [TState.isR] at hr
   | rStamp => simp [TState.isR] at hr
-  | xCheck q =>
+  | sScan _ _ _ _ _ => simp [TState.lk] at hs
+  | xCheck g =>
     simp only [stepT]
     split
-    · exact ⟨rfl, rfl, rfl⟩
-    · exact ⟨afterLocal_isB _ _ _, afterLocal_isR _ _ _, rfl⟩
-  | xLocal q todo acc =>
+    · exact ⟨enter_isB _ _, enter_isR _ _, by rw [enter_lk]; exact hs, rfl⟩
+    · exact ⟨afterLocal_isB _ _ _, afterLocal_isR _ _ _, by rw [afterLocal_lk]; exact hs, rfl⟩
+  | xLocal g todo acc =>
     cases todo with
-    | nil => exact ⟨rfl, rfl, rfl⟩
-    | cons c rest => exact ⟨afterLocal_isB _ _ _, afterLocal_isR _ _ _, rfl⟩
-  | xPublish q acc => exact ⟨rfl, rfl, rfl⟩
-  | xStamp q => exact ⟨rfl, rfl, rfl⟩
-  | xContains q d => simp only [stepT]; split <;> exact ⟨rfl, rfl, rfl⟩
-  | xGet q d => simp only [stepT]; split <;> exact ⟨rfl, rfl, rfl⟩
-  | done o => exact ⟨rfl, rfl, rfl⟩
+    | nil => exact ⟨rfl, rfl, hs, rfl⟩
+    | cons c rest =>
+      exact ⟨afterLocal_isB _ _ _, afterLocal_isR _ _ _,
+        (afterLocal_lk g rest (localAdd U acc c)).trans hs, rfl⟩
+  | xPublish g acc => exact ⟨rfl, rfl, hs, rfl⟩
+  | xStamp g => exact ⟨enter_isB _ _, enter_isR _ _, (enter_lk _ g).trans hs, rfl⟩
+  | xContains k q d => simp only [stepT]; split <;> exact ⟨rfl, rfl, rfl, rfl⟩
+  | xGet k q d => simp only [stepT]; split <;> exact ⟨rfl, rfl, rfl, rfl⟩
+  | done o => exact ⟨rfl, rfl, rfl, rfl⟩
 
 /-- a thread outside the index code and outside `reset` stays there and leaves
 the dict objects, the reference and the stamp alone -/
@@ -61,32 +92,106 @@ theorem stepT_notXR (U : Universe) (w : World) (s : CState) (st : TState) (hx : 
   | xLocal _ _ _ => simp [TState.isX] at hx
   | xPublish _ _ => simp [TState.isX] at hx
   | xStamp _ => simp [TState.isX] at hx
-  | xContains _ _ => simp [TState.isX] at hx
-  | xGet _ _ => simp [TState.isX] at hx
+  | xContains _ _ _ => simp [TState.isX] at hx
+  | xGet _ _ _ => simp [TState.isX] at hx
+  | sScan _ _ _ _ _ => simp [TState.isX] at hx
   | rCache => simp [TState.isR] at hr
   | rXsi _ => simp [TState.isR] at hr
   | rStamp => simp [TState.isR] at hr
   | done o => exact ⟨rfl, rfl, rfl, rfl, rfl⟩
 
+/-! #### the cache only grows (also during a scan) -/
+
+theorem doBuild_cache_mono (U : Universe) (s : State) (c' : ClassId) (p : Option Str) (c : ClassId)
+    (h : (s.cache.lookup c).isSome = true) : ((doBuild U s c' p).1.cache.lookup c).isSome = true := by
+  unfold doBuild
+  split
+  · exact h
+  · split
+    · simp only
+      by_cases hc : c = c'
+      · subst hc; simp [lookup_dictSet_self]
+      · rw [lookup_dictSet_ne _ _ _ _ hc]; exact h
+    · exact h
+
+theorem doLocalNamesMatch_cache (U : Universe) (s : State) (names : List Str) (c' : ClassId) :
+    (doLocalNamesMatch U s names c').1.cache = (doBuild U s c' none).1.cache := by
+  unfold doLocalNamesMatch
+  cases hb : doBuild U s c' none with
+  | mk s1 r =>
+    cases r with
+    | ok m => rfl
+    | error e =>
+      simp only
+      split
+      · rfl
+      · split
+        · rfl
+        · split <;> rfl
+
+theorem scanTypes_cache_mono (U : Universe) (names : List Str) (c : ClassId) :
+    ∀ (l : List ClassId) (s : State) (acc : List Choice), (s.cache.lookup c).isSome = true →
+      ((scanTypes U names l s acc).1.cache.lookup c).isSome = true
+  | [], _, _, h => h
+  | c' :: rest, s, acc, h => by
+    have h1 : ((doLocalNamesMatch U s names c').1.cache.lookup c).isSome = true := by
+      rw [doLocalNamesMatch_cache]; exact doBuild_cache_mono U s c' none c h
+    unfold scanTypes
+    cases hm : doLocalNamesMatch U s names c' with
+    | mk s1 r =>
+      rw [hm] at h1
+      cases r with
+      | error e => exact h1
+      | ok b =>
+        cases b with
+        | false => exact scanTypes_cache_mono U names c rest s1 acc h1
+        | true =>
+          simp only
+          split
+          · exact scanTypes_cache_mono U names c rest s1 _ h1
+          · exact h1
+
 /-- outside `reset` the cache never loses a key -/
 theorem stepT_cache_mono (U : Universe) (w : World) (s : CState) (st : TState) (hr : st.isR = false)
     (c : ClassId) (h : (s.cache.lookup c).isSome = true) :
     ((stepT U w s st).1.cache.lookup c).isSome = true := by
-  by_cases hb : st.isB = false
-  · rw [(stepT_notBR U w s st hb hr).2.2]; exact h
-  · cases st with
-    | bCheck c' p =>
-      simp only [stepT]
-      split
-      · exact h
-      · split <;> exact h
-    | bWrite c' m =>
-      simp only [stepT]
-      by_cases hc : c = c'
-      · subst hc; simp [lookup_dictSet_self]
-      · rw [lookup_dictSet_ne _ _ _ _ hc]; exact h
-    | bRead c' => simp only [stepT]; split <;> exact h
-    | _ => simp [TState.isB] at hb
+  cases st with
+  | bCheck c' p =>
+    simp only [stepT]
+    split
+    · exact h
+    · split <;> exact h
+  | bWrite c' m =>
+    simp only [stepT]
+    by_cases hc : c = c'
+    · subst hc; simp [lookup_dictSet_self]
+    · rw [lookup_dictSet_ne _ _ _ _ hc]; exact h
+  | bRead c' => simp only [stepT]; split <;> exact h
+  | sScan names d todo n0 acc =>
+    simp only [stepT]
+    split
+    · exact h
+    · cases todo with
+      | nil => exact h
+      | cons k rest =>
+        simp only
+        have hm := scanTypes_cache_mono U names c (((s.dict d).lookup k).getD []) s.toState acc h
+        cases hsc : scanTypes U names (((s.dict d).lookup k).getD []) s.toState acc with
+        | mk st' r =>
+          rw [hsc] at hm
+          have : ((s.absorb st').cache.lookup c).isSome = true := by
+            unfold CState.absorb; split <;> exact hm
+          cases r <;> exact this
+  | rCache => simp [TState.isR] at hr
+  | rXsi _ => simp [TState.isR] at hr
+  | rStamp => simp [TState.isR] at hr
+  | xCheck g => simp only [stepT]; split <;> exact h
+  | xLocal g todo acc => cases todo <;> exact h
+  | xPublish g acc => exact h
+  | xStamp g => exact h
+  | xContains k q d => simp only [stepT]; split <;> exact h
+  | xGet k q d => simp only [stepT]; split <;> exact h
+  | done o => exact h
 
 theorem cache_entry_eq_pure {U : Universe} {uses : List Use} {cache : List (ClassId × Meta)}
     (hI : ∀ c m, cache.lookup c = some m → ∃ p, (c, p) ∈ uses ∧ pureBuild U c p = .ok m)
@@ -102,7 +207,7 @@ theorem cache_entry_eq_pure {U : Universe} {uses : List Use} {cache : List (Clas
     rw [pureBuild_insensitive U c hs' p p0]
     exact hb
 
-/-! ### the metadata cache under arbitrary interleavings -/
+/-! ### the metadata cache under arbitrary interleavings (no by-fields scans) -/
 
 /-- what is known about a thread inside / after `build(c, p)` -/
 def BuildOK (U : Universe) (s : CState) (c : ClassId) (p : Option Str) : TState → Prop
@@ -116,10 +221,15 @@ theorem BuildOK.notR {U : Universe} {s : CState} {c : ClassId} {p : Option Str} 
     (h : BuildOK U s c p st) : st.isR = false := by
   cases st <;> first | rfl | cases h
 
+theorem BuildOK.notX {U : Universe} {s : CState} {c : ClassId} {p : Option Str} {st : TState}
+    (h : BuildOK U s c p st) : st.isX = false := by
+  cases st <;> first | rfl | cases h
+
 def ThreadOK (U : Universe) (uses : List Use) (s : CState) (th : Thread) : Prop :=
   match th.prog with
   | .build c p => (c, p) ∈ uses ∧ BuildOK U s c p th.st
-  | .findTypes _ => th.st.isB = false ∧ th.st.isR = false
+  | .lookup _ _ => th.st.isB = false ∧ th.st.isR = false ∧ th.st.lk = true
+  | .scan _ => False
   | .reset => False
 
 structure SysInv (U : Universe) (uses : List Use) (sys : Sys) : Prop where
@@ -134,7 +244,12 @@ theorem mem_progUses : ∀ (progs : List Prog) (c : ClassId) (p : Option Str),
     cases List.mem_cons.mp h with
     | inl h => cases h; exact List.mem_cons_self
     | inr h => exact List.mem_cons_of_mem _ (mem_progUses rest c p h)
-  | .findTypes _ :: rest, c, p, h => by
+  | .lookup _ _ :: rest, c, p, h => by
+    simp only [progUses]
+    cases List.mem_cons.mp h with
+    | inl h => cases h
+    | inr h => exact mem_progUses rest c p h
+  | .scan _ :: rest, c, p, h => by
     simp only [progUses]
     cases List.mem_cons.mp h with
     | inl h => cases h
@@ -145,13 +260,13 @@ theorem mem_progUses : ∀ (progs : List Prog) (c : ClassId) (p : Option Str),
     | inl h => cases h
     | inr h => exact mem_progUses rest c p h
 
-theorem start_isB (q : Str) : (Prog.findTypes q).start.isB = false := by
-  simp only [Prog.start]; split <;> rfl
+theorem start_lookup (k : Look) (q : Str) :
+    (Prog.lookup k q).start.isB = false ∧ (Prog.lookup k q).start.isR = false ∧
+      (Prog.lookup k q).start.lk = true := by
+  simp only [Prog.start]; split <;> exact ⟨rfl, rfl, rfl⟩
 
-theorem start_isR (q : Str) : (Prog.findTypes q).start.isR = false := by
-  simp only [Prog.start]; split <;> rfl
-
-theorem SysInv.start (U : Universe) (progs : List Prog) (hnr : noReset progs) (s0 : State)
+theorem SysInv.start (U : Universe) (progs : List Prog) (hnr : noReset progs) (hns : noScan progs)
+    (s0 : State)
     (h0 : ∀ c m, s0.cache.lookup c = some m → ∃ p, (c, p) ∈ progUses progs ∧ pureBuild U c p = .ok m) :
     SysInv U (progUses progs) (Sys.start s0 progs) := by
   refine ⟨h0, ?_⟩
@@ -160,7 +275,8 @@ theorem SysInv.start (U : Universe) (progs : List Prog) (hnr : noReset progs) (s
   obtain ⟨pr, hpr, rfl⟩ := hth
   cases pr with
   | build c p => exact ⟨mem_progUses progs c p hpr, rfl, rfl⟩
-  | findTypes q => exact ⟨start_isB q, start_isR q⟩
+  | lookup k q => exact start_lookup k q
+  | scan names => exact absurd rfl (hns _ hpr names)
   | reset => exact absurd rfl (hnr _ hpr)
 
 theorem BuildOK.mono {U : Universe} {s s' : CState} {c : ClassId} {p : Option Str} {st : TState}
@@ -217,8 +333,9 @@ theorem stepT_build_inv {U : Universe} {uses : List Use} (hc : consistent U uses
   | xLocal _ _ _ => cases hst
   | xPublish _ _ => cases hst
   | xStamp _ => cases hst
-  | xContains _ _ => cases hst
-  | xGet _ _ => cases hst
+  | xContains _ _ _ => cases hst
+  | xGet _ _ _ => cases hst
+  | sScan _ _ _ _ _ => cases hst
   | rCache => cases hst
   | rXsi _ => cases hst
   | rStamp => cases hst
@@ -238,14 +355,15 @@ theorem sched_inv {U : Universe} {uses : List Use} (hc : consistent U uses) (w :
         ThreadOK U uses (stepT U w sys.shared th.st).1 ⟨th.prog, (stepT U w sys.shared th.st).2⟩ := by
       unfold ThreadOK at hok ⊢
       cases hp : th.prog with
-      | findTypes q =>
+      | lookup k q =>
         simp only [hp] at hok ⊢
-        obtain ⟨h1, h2, h3⟩ := stepT_notBR U w sys.shared th.st hok.1 hok.2
-        exact ⟨hok.2, by rw [h3]; exact hI.cache, h1, h2⟩
+        obtain ⟨h1, h2, h3, h4⟩ := stepT_notBR U w sys.shared th.st hok.1 hok.2.1 hok.2.2
+        exact ⟨hok.2.1, by rw [h4]; exact hI.cache, h1, h2, h3⟩
       | build c p =>
         simp only [hp] at hok ⊢
         obtain ⟨h1, h2⟩ := stepT_build_inv hc w hI.cache hok.1 hok.2
         exact ⟨hok.2.notR, h1, hok.1, h2⟩
+      | scan names => simp only [hp] at hok
       | reset => simp only [hp] at hok
     have hmono := stepT_cache_mono U w sys.shared th.st key.1
     refine ⟨key.2.1, ?_⟩
@@ -256,10 +374,11 @@ theorem sched_inv {U : Universe} {uses : List Use} (hc : consistent U uses) (w :
       have hok' := hI.threads th' h
       unfold ThreadOK at hok' ⊢
       cases hp : th'.prog with
-      | findTypes q => simpa [hp] using hok'
+      | lookup k q => simpa [hp] using hok'
       | build c p =>
         simp only [hp] at hok' ⊢
         exact ⟨hok'.1, hok'.2.mono (hmono c)⟩
+      | scan names => simp only [hp] at hok'
       | reset => simp only [hp] at hok'
 
 theorem runSched_inv {U : Universe} {uses : List Use} (hc : consistent U uses) (w : World) :
@@ -303,44 +422,219 @@ theorem Full.dict {U : Universe} {w : World} {s : CState} {d : Nat} (h : Full U 
     s.dict d = pureIndex U w.loaded := by
   unfold CState.dict; rw [h]; rfl
 
-def FindOK (U : Universe) (w : World) (s : CState) (q : Str) : TState → Prop
-  | .xCheck q' => q' = q ∧ isDataType q = false
-  | .xLocal q' todo acc => q' = q ∧ isDataType q = false ∧
-      todo.foldl (localAdd U) acc = pureIndex U w.loaded
-  | .xPublish q' acc => q' = q ∧ isDataType q = false ∧ acc = pureIndex U w.loaded
-  | .xStamp q' => q' = q ∧ isDataType q = false ∧ Full U w s s.ref
-  | .xContains q' d => q' = q ∧ isDataType q = false ∧ Full U w s d ∧ Full U w s s.ref
-  | .xGet q' d => q' = q ∧ isDataType q = false ∧ Full U w s d ∧
+def Goal.valid : Goal → Prop
+  | .lookup _ q => isDataType q = false
+  | .scan _ => True
+
+/-- what the call returns when run alone -/
+def Goal.alone (U : Universe) (w : World) : Goal → Out
+  | .lookup k q => k.out U (pureTypes U w q)
+  | .scan names => .gotType (pureFields U w names)
+
+/-- the choices a scan has collected after visiting the entries with keys `pre` -/
+def scanAcc (U : Universe) (w : World) (names : List Str) (pre : List Str) : List Choice :=
+  (pre.flatMap fun k => ((pureIndex U w.loaded).lookup k).getD []).filterMap (choiceOf U names)
+
+def FindOK (U : Universe) (w : World) (s : CState) (g : Goal) : TState → Prop
+  | .xCheck g' => g' = g ∧ g.valid
+  | .xLocal g' todo acc => g' = g ∧ g.valid ∧ todo.foldl (localAdd U) acc = pureIndex U w.loaded
+  | .xPublish g' acc => g' = g ∧ g.valid ∧ acc = pureIndex U w.loaded
+  | .xStamp g' => g' = g ∧ g.valid ∧ Full U w s s.ref
+  | .xContains k q d => g = .lookup k q ∧ g.valid ∧ Full U w s d ∧ Full U w s s.ref
+  | .xGet k q d => g = .lookup k q ∧ g.valid ∧ Full U w s d ∧
       ((pureIndex U w.loaded).lookup q).isSome = true
-  | .done o => o = .gotTypes (pureTypes U w q)
+  | .sScan names d todo n0 acc => g = .scan names ∧ Full U w s d ∧ Full U w s s.ref ∧
+      n0 = (pureIndex U w.loaded).length ∧
+      ∃ pre, pre ++ todo = (pureIndex U w.loaded).map (·.1) ∧ acc = scanAcc U w names pre
+  | .done o => o = g.alone U w
   | _ => False
+
+theorem FindOK.afterLocal {U : Universe} {w : World} {s : CState} {g : Goal} (hd : g.valid)
+    {todo : List ClassId} {acc : Index} (h : todo.foldl (localAdd U) acc = pureIndex U w.loaded) :
+    FindOK U w s g (afterLocal g todo acc) := by
+  cases todo with
+  | nil => exact ⟨rfl, hd, h⟩
+  | cons c rest => exact ⟨rfl, hd, h⟩
+
+theorem FindOK.enter {U : Universe} {w : World} {s : CState} {g : Goal} (hd : g.valid)
+    (hf : Full U w s s.ref) : FindOK U w s g (g.enter s) := by
+  cases g with
+  | lookup k q => exact ⟨rfl, hd, hf, hf⟩
+  | scan names =>
+    simp only [Goal.enter, FindOK, hf.dict]
+    exact ⟨trivial, hf, hf, trivial, [], rfl, rfl⟩
+
+theorem FindOK.mono {U : Universe} {w : World} {s s' : CState} {g : Goal} {st : TState}
+    (h : FindOK U w s g st) (h1 : ∀ d, Full U w s d → Full U w s' d)
+    (h2 : Full U w s s.ref → Full U w s' s'.ref) : FindOK U w s' g st := by
+  cases st <;> simp only [FindOK] at h ⊢ <;> try exact h
+  · exact ⟨h.1, h.2.1, h2 h.2.2⟩
+  · exact ⟨h.1, h.2.1, h1 _ h.2.2.1, h2 h.2.2.2⟩
+  · exact ⟨h.1, h.2.1, h1 _ h.2.2.1, h.2.2.2⟩
+  · exact ⟨h.1, h1 _ h.2.1, h2 h.2.2.1, h.2.2.2⟩
+
+theorem Look.out_nil (U : Universe) (k : Look) : k.out U [] = k.empty := by
+  cases k <;> rfl
+
+/-- the stepping thread of a lookup / of the index refresh before a scan:
+complete dicts stay complete, the published one is complete once it was, the
+stamp implies completeness, and the thread's next state is again described by
+`FindOK`.  (The scan steps themselves are `stepT_scan_inv`.) -/
+theorem stepT_find_inv {U : Universe} {w : World} {s : CState} {g : Goal} {st : TState}
+    (hstamp : s.sysModules = w.mods + 1 → Full U w s s.ref) (hst : FindOK U w s g st)
+    (hns : st.isS = false) :
+    (stepT U w s st).1.cache = s.cache ∧
+      (∀ d, Full U w s d → Full U w (stepT U w s st).1 d) ∧
+      (Full U w s s.ref → Full U w (stepT U w s st).1 (stepT U w s st).1.ref) ∧
+      ((stepT U w s st).1.sysModules = w.mods + 1 →
+        Full U w (stepT U w s st).1 (stepT U w s st).1.ref) ∧
+      FindOK U w (stepT U w s st).1 g (stepT U w s st).2 := by
+  cases st with
+  | xCheck g' =>
+    obtain ⟨rfl, hd⟩ := hst
+    simp only [stepT]
+    by_cases hcur : w.mods + 1 = s.sysModules
+    · rw [if_pos hcur]
+      exact ⟨rfl, fun _ h => h, fun h => h, hstamp, FindOK.enter hd (hstamp hcur.symm)⟩
+    · rw [if_neg hcur]
+      exact ⟨rfl, fun _ h => h, fun h => h, hstamp, FindOK.afterLocal hd (localIndex_eq U w.loaded)⟩
+  | xLocal g' todo acc =>
+    obtain ⟨rfl, hd, hf⟩ := hst
+    cases todo with
+    | nil => exact ⟨rfl, fun _ h => h, fun h => h, hstamp, rfl, hd, hf⟩
+    | cons c rest => exact ⟨rfl, fun _ h => h, fun h => h, hstamp, FindOK.afterLocal hd hf⟩
+  | xPublish g' acc =>
+    obtain ⟨rfl, hd, rfl⟩ := hst
+    simp only [stepT]
+    have hnew : Full U w { s with heap := s.heap ++ [pureIndex U w.loaded], ref := s.heap.length }
+        s.heap.length := by
+      simp [Full]
+    refine ⟨trivial, ?_, fun _ => hnew, fun _ => hnew, rfl, hd, hnew⟩
+    intro d hfull
+    unfold Full at hfull ⊢
+    have hlt : d < s.heap.length := by
+      rcases Nat.lt_or_ge d s.heap.length with h | h
+      · exact h
+      · rw [List.getElem?_eq_none h] at hfull; cases hfull
+    simp only
+    rw [List.getElem?_append_left hlt]
+    exact hfull
+  | xStamp g' =>
+    obtain ⟨rfl, hd, hf⟩ := hst
+    simp only [stepT]
+    have hf' : Full U w { s with sysModules := w.mods + 1 } s.ref := hf
+    exact ⟨trivial, fun _ h => h, fun h => h, fun _ => hf', FindOK.enter (s := { s with sysModules := w.mods + 1 }) hd hf'⟩
+  | xContains k q d =>
+    obtain ⟨rfl, hd, hfd, hfr⟩ := hst
+    simp only [stepT, hfd.dict]
+    cases hl : (pureIndex U w.loaded).lookup q with
+    | some l => exact ⟨rfl, fun _ h => h, fun h => h, hstamp, rfl, hd, hfr, by simp [hl]⟩
+    | none =>
+      refine ⟨rfl, fun _ h => h, fun h => h, hstamp, ?_⟩
+      have hd' : isDataType q = false := hd
+      simp [FindOK, Goal.alone, pureTypes, hd', hl]
+  | xGet k q d =>
+    obtain ⟨rfl, hd, hfd, hsome⟩ := hst
+    simp only [stepT, hfd.dict]
+    cases hl : (pureIndex U w.loaded).lookup q with
+    | none => simp [hl] at hsome
+    | some l =>
+      refine ⟨rfl, fun _ h => h, fun h => h, hstamp, ?_⟩
+      have hd' : isDataType q = false := hd
+      simp [FindOK, Goal.alone, pureTypes, hd', hl]
+  | done o => exact ⟨rfl, fun _ h => h, fun h => h, hstamp, hst⟩
+  | sScan _ _ _ _ _ => simp [TState.isS] at hns
+  | bCheck _ _ => cases hst
+  | bWrite _ _ => cases hst
+  | bRead _ => cases hst
+  | rCache => cases hst
+  | rXsi _ => cases hst
+  | rStamp => cases hst
+
+theorem FindOK.lookup_notS {U : Universe} {w : World} {s : CState} {k : Look} {q : Str} {st : TState}
+    (h : FindOK U w s (.lookup k q) st) : st.isS = false := by
+  cases st <;> first | rfl | (exact absurd h.1 (by simp))
+
+abbrev CacheInv (U : Universe) (uses : List Use) (cache : List (ClassId × Meta)) : Prop :=
+  ∀ c m, cache.lookup c = some m → ∃ p, (c, p) ∈ uses ∧ pureBuild U c p = .ok m
+
+/-- **one step of the by-fields scan** (one `next()` of the `values()` iterator and
+the visited entry's builds): on a complete dict object whose classes are all
+buildable it neither fails nor touches the index, keeps the cache valid, and
+extends the collected choices exactly as the atomic scan does -/
+theorem stepT_scan_inv {U : Universe} {w : World} {s : CState} {uses : List Use} {names : List Str}
+    (hc : consistent U uses) (hC : CacheInv U uses s.cache)
+    (hU : ∀ c ∈ indexedClasses (pureIndex U w.loaded), (c, none) ∈ uses)
+    (hB : ∀ c ∈ indexedClasses (pureIndex U w.loaded), buildable U c = true)
+    {d : Nat} {todo : List Str} {n0 : Nat} {acc : List Choice}
+    (hst : FindOK U w s (.scan names) (.sScan names d todo n0 acc)) :
+    CacheInv U uses (stepT U w s (.sScan names d todo n0 acc)).1.cache ∧
+      (stepT U w s (.sScan names d todo n0 acc)).1.heap = s.heap ∧
+      (stepT U w s (.sScan names d todo n0 acc)).1.ref = s.ref ∧
+      (stepT U w s (.sScan names d todo n0 acc)).1.sysModules = s.sysModules ∧
+      FindOK U w (stepT U w s (.sScan names d todo n0 acc)).1 (.scan names)
+        (stepT U w s (.sScan names d todo n0 acc)).2 := by
+  obtain ⟨_, hfd, hfr, rfl, pre, hpre, rfl⟩ := hst
+  simp only [stepT, hfd.dict]
+  rw [if_neg (by simp)]
+  cases todo with
+  | nil =>
+    refine ⟨hC, rfl, rfl, rfl, ?_⟩
+    simp only [List.append_nil] at hpre
+    simp only [FindOK, Goal.alone, pureFields, indexedClasses, scanAcc, hpre]
+  | cons k rest =>
+    dsimp only
+    have hk : k ∈ (pureIndex U w.loaded).map (·.1) := by
+      rw [← hpre]; exact List.mem_append_right _ List.mem_cons_self
+    have hmem : ∀ c ∈ ((pureIndex U w.loaded).lookup k).getD [], c ∈ indexedClasses (pureIndex U w.loaded) := by
+      intro c hcm
+      unfold indexedClasses
+      exact List.mem_flatMap.mpr ⟨k, hk, hcm⟩
+    have hInv : Inv U ⟨uses, [⟨w.loaded, s.sysModules - 1⟩]⟩ s.toState := by
+      refine ⟨hC, ?_⟩
+      by_cases h0 : s.sysModules = 0
+      · exact Or.inl h0
+      · refine Or.inr ⟨⟨w.loaded, s.sysModules - 1⟩, List.mem_singleton.mpr rfl, ?_, hfr.dict⟩
+        show s.sysModules = s.sysModules - 1 + 1
+        omega
+    obtain ⟨s', hr, hI', hx', _⟩ :=
+      scanTypes_spec (t := ⟨uses, [⟨w.loaded, s.sysModules - 1⟩]⟩) hc names
+        (((pureIndex U w.loaded).lookup k).getD []) s.toState (scanAcc U w names pre) hInv
+        (fun c hcm => hB c (hmem c hcm)) (fun c hcm => hU c (hmem c hcm))
+    rw [hr]
+    dsimp only
+    have habs : s.absorb s' = { s with cache := s'.cache } := by
+      unfold CState.absorb
+      rw [if_pos (by rw [hx']; rfl)]
+    rw [habs]
+    refine ⟨hI'.cache, rfl, rfl, rfl, ?_⟩
+    refine ⟨rfl, hfd, hfr, rfl, pre ++ [k], by rw [List.append_assoc]; exact hpre, ?_⟩
+    simp [scanAcc, List.flatMap_append, List.filterMap_append]
+
+/-! #### lookups only (no scans): `LinInv` -/
 
 def ThreadLin (U : Universe) (w : World) (s : CState) (th : Thread) : Prop :=
   match th.prog with
   | .build _ _ => th.st.isX = false ∧ th.st.isR = false
-  | .findTypes q => FindOK U w s q th.st
+  | .lookup k q => FindOK U w s (.lookup k q) th.st
+  | .scan _ => False
   | .reset => False
 
 structure LinInv (U : Universe) (w : World) (sys : Sys) : Prop where
   stamp : sys.shared.sysModules = w.mods + 1 → Full U w sys.shared sys.shared.ref
   threads : ∀ th ∈ sys.threads, ThreadLin U w sys.shared th
 
-theorem FindOK.afterLocal {U : Universe} {w : World} {s : CState} {q : Str} (hd : isDataType q = false)
-    {todo : List ClassId} {acc : Index} (h : todo.foldl (localAdd U) acc = pureIndex U w.loaded) :
-    FindOK U w s q (afterLocal q todo acc) := by
-  cases todo with
-  | nil => exact ⟨rfl, hd, h⟩
-  | cons c rest => exact ⟨rfl, hd, h⟩
+theorem FindOK.start {U : Universe} {w : World} {s : CState} (k : Look) (q : Str) :
+    FindOK U w s (.lookup k q) (Prog.lookup k q).start := by
+  simp only [Prog.start]
+  by_cases hd : isDataType q = true
+  · simp only [hd, if_true, FindOK, Goal.alone, pureTypes, Look.out_nil]
+  · have hd' : isDataType q = false := by simpa using hd
+    simp only [hd']
+    exact ⟨rfl, hd'⟩
 
-theorem FindOK.mono {U : Universe} {w : World} {s s' : CState} {q : Str} {st : TState}
-    (h : FindOK U w s q st) (h1 : ∀ d, Full U w s d → Full U w s' d)
-    (h2 : Full U w s s.ref → Full U w s' s'.ref) : FindOK U w s' q st := by
-  cases st <;> simp only [FindOK] at h ⊢ <;> try exact h
-  · exact ⟨h.1, h.2.1, h2 h.2.2⟩
-  · exact ⟨h.1, h.2.1, h1 _ h.2.2.1, h2 h.2.2.2⟩
-  · exact ⟨h.1, h.2.1, h1 _ h.2.2.1, h.2.2.2⟩
-
-theorem LinInv.start (U : Universe) (w : World) (progs : List Prog) (hnr : noReset progs) (s0 : State)
+theorem LinInv.start (U : Universe) (w : World) (progs : List Prog) (hnr : noReset progs)
+    (hns : noScan progs) (s0 : State)
     (h0 : s0.sysModules = w.mods + 1 → s0.xsi = pureIndex U w.loaded) :
     LinInv U w (Sys.start s0 progs) := by
   refine ⟨?_, ?_⟩
@@ -353,86 +647,15 @@ theorem LinInv.start (U : Universe) (w : World) (progs : List Prog) (hnr : noRes
     cases pr with
     | build c p => exact ⟨rfl, rfl⟩
     | reset => exact absurd rfl (hnr _ hpr)
-    | findTypes q =>
-      simp only [ThreadLin, Prog.start]
-      by_cases hd : isDataType q = true
-      · simp only [hd, if_true, FindOK, pureTypes]
-      · have hd' : isDataType q = false := by simpa using hd
-        simp [hd', FindOK]
-
-/-- the stepping thread of a lookup: complete dicts stay complete, the published
-one is complete once it was, the stamp implies completeness, and the thread's
-next state is again described by `FindOK` -/
-theorem stepT_find_inv {U : Universe} {w : World} {s : CState} {q : Str} {st : TState}
-    (hstamp : s.sysModules = w.mods + 1 → Full U w s s.ref) (hst : FindOK U w s q st) :
-    (∀ d, Full U w s d → Full U w (stepT U w s st).1 d) ∧
-      (Full U w s s.ref → Full U w (stepT U w s st).1 (stepT U w s st).1.ref) ∧
-      ((stepT U w s st).1.sysModules = w.mods + 1 →
-        Full U w (stepT U w s st).1 (stepT U w s st).1.ref) ∧
-      FindOK U w (stepT U w s st).1 q (stepT U w s st).2 := by
-  cases st with
-  | xCheck q' =>
-    obtain ⟨rfl, hd⟩ := hst
-    simp only [stepT]
-    by_cases hcur : w.mods + 1 = s.sysModules
-    · rw [if_pos hcur]
-      have hf := hstamp hcur.symm
-      exact ⟨fun _ h => h, fun h => h, hstamp, rfl, hd, hf, hf⟩
-    · rw [if_neg hcur]
-      exact ⟨fun _ h => h, fun h => h, hstamp, FindOK.afterLocal hd (localIndex_eq U w.loaded)⟩
-  | xLocal q' todo acc =>
-    obtain ⟨rfl, hd, hf⟩ := hst
-    cases todo with
-    | nil => exact ⟨fun _ h => h, fun h => h, hstamp, rfl, hd, hf⟩
-    | cons c rest => exact ⟨fun _ h => h, fun h => h, hstamp, FindOK.afterLocal hd hf⟩
-  | xPublish q' acc =>
-    obtain ⟨rfl, hd, rfl⟩ := hst
-    simp only [stepT]
-    have hnew : Full U w { s with heap := s.heap ++ [pureIndex U w.loaded], ref := s.heap.length }
-        s.heap.length := by
-      simp [Full]
-    refine ⟨?_, fun _ => hnew, fun _ => hnew, rfl, hd, hnew⟩
-    intro d hfull
-    unfold Full at hfull ⊢
-    have hlt : d < s.heap.length := by
-      rcases Nat.lt_or_ge d s.heap.length with h | h
-      · exact h
-      · rw [List.getElem?_eq_none h] at hfull; cases hfull
-    simp only
-    rw [List.getElem?_append_left hlt]
-    exact hfull
-  | xStamp q' =>
-    obtain ⟨rfl, hd, hf⟩ := hst
-    exact ⟨fun _ h => h, fun h => h, fun _ => hf, rfl, hd, hf, hf⟩
-  | xContains q' d =>
-    obtain ⟨rfl, hd, hfd, hfr⟩ := hst
-    simp only [stepT, hfd.dict]
-    cases hl : (pureIndex U w.loaded).lookup q' with
-    | some l => exact ⟨fun _ h => h, fun h => h, hstamp, rfl, hd, hfr, by simp [hl]⟩
-    | none =>
-      refine ⟨fun _ h => h, fun h => h, hstamp, ?_⟩
-      simp [FindOK, pureTypes, hd, hl]
-  | xGet q' d =>
-    obtain ⟨rfl, hd, hfd, hsome⟩ := hst
-    simp only [stepT, hfd.dict]
-    cases hl : (pureIndex U w.loaded).lookup q' with
-    | none => simp [hl] at hsome
-    | some l =>
-      refine ⟨fun _ h => h, fun h => h, hstamp, ?_⟩
-      simp [FindOK, pureTypes, hd, hl]
-  | done o => exact ⟨fun _ h => h, fun h => h, hstamp, hst⟩
-  | bCheck _ _ => cases hst
-  | bWrite _ _ => cases hst
-  | bRead _ => cases hst
-  | rCache => cases hst
-  | rXsi _ => cases hst
-  | rStamp => cases hst
+    | scan names => exact absurd rfl (hns _ hpr names)
+    | lookup k q => exact FindOK.start k q
 
 theorem sched_lin {U : Universe} (w : World) {sys : Sys} (hI : LinInv U w sys) (i : Nat) :
-    LinInv U w (sched U w sys i) := by
+    LinInv U w (sched U w sys i) ∧
+      ∀ d, Full U w sys.shared d → Full U w (sched U w sys i).shared d := by
   unfold sched
   cases hth : sys.threads[i]? with
-  | none => exact hI
+  | none => exact ⟨hI, fun _ h => h⟩
   | some th =>
     have hmem : th ∈ sys.threads := List.mem_of_getElem? hth
     have hok := hI.threads th hmem
@@ -451,11 +674,12 @@ theorem sched_lin {U : Universe} (w : World) {sys : Sys} (hI : LinInv U w sys) (
         · intro d hf; unfold Full at hf ⊢; rw [h3]; exact hf
         · intro hf; unfold Full at hf ⊢; rw [h3, h4]; exact hf
         · intro hs; rw [h5] at hs; have := hI.stamp hs; unfold Full at this ⊢; rw [h3, h4]; exact this
-      | findTypes q =>
+      | lookup k q =>
         simp only [hp] at hok ⊢
-        exact stepT_find_inv hI.stamp hok
+        exact (stepT_find_inv hI.stamp hok hok.lookup_notS).2
+      | scan names => simp only [hp] at hok
       | reset => simp only [hp] at hok
-    refine ⟨key.2.2.1, ?_⟩
+    refine ⟨⟨key.2.2.1, ?_⟩, key.1⟩
     intro th' hth'
     cases List.mem_or_eq_of_mem_set hth' with
     | inr h => rw [h]; exact key.2.2.2
@@ -464,14 +688,191 @@ theorem sched_lin {U : Universe} (w : World) {sys : Sys} (hI : LinInv U w sys) (
       unfold ThreadLin at hok' ⊢
       cases hp : th'.prog with
       | build c p => simpa [hp] using hok'
-      | findTypes q =>
+      | lookup k q =>
         simp only [hp] at hok' ⊢
         exact hok'.mono key.1 key.2.1
+      | scan names => simp only [hp] at hok'
       | reset => simp only [hp] at hok'
 
 theorem runSched_lin {U : Universe} (w : World) :
-    ∀ (schedule : List Nat) (sys : Sys), LinInv U w sys → LinInv U w (runSched U w sys schedule)
-  | [], _, h => h
-  | i :: rest, _, h => runSched_lin w rest _ (sched_lin w h i)
+    ∀ (schedule : List Nat) (sys : Sys), LinInv U w sys →
+      LinInv U w (runSched U w sys schedule) ∧
+        ∀ d, Full U w sys.shared d → Full U w (runSched U w sys schedule).shared d
+  | [], _, h => ⟨h, fun _ hf => hf⟩
+  | i :: rest, _, h => by
+    obtain ⟨h1, h2⟩ := sched_lin w h i
+    obtain ⟨h3, h4⟩ := runSched_lin w rest _ h1
+    exact ⟨h3, fun d hf => h4 d (h2 d hf)⟩
+
+theorem runSched_append (U : Universe) (w : World) : ∀ (a b : List Nat) (sys : Sys),
+    runSched U w sys (a ++ b) = runSched U w (runSched U w sys a) b
+  | [], _, _ => rfl
+  | i :: a, b, sys => by simp only [List.cons_append, runSched]; exact runSched_append U w a b _
+
+/-! #### builds, lookups and by-fields scans together: `CombInv` -/
+
+def ThreadAll (U : Universe) (w : World) (uses : List Use) (s : CState) (th : Thread) : Prop :=
+  match th.prog with
+  | .build c p => (c, p) ∈ uses ∧ BuildOK U s c p th.st
+  | .lookup k q => FindOK U w s (.lookup k q) th.st
+  | .scan names =>
+    (∀ c ∈ indexedClasses (pureIndex U w.loaded), (c, none) ∈ uses ∧ buildable U c = true) ∧
+      FindOK U w s (.scan names) th.st
+  | .reset => False
+
+structure CombInv (U : Universe) (w : World) (uses : List Use) (sys : Sys) : Prop where
+  cache : CacheInv U uses sys.shared.cache
+  stamp : sys.shared.sysModules = w.mods + 1 → Full U w sys.shared sys.shared.ref
+  threads : ∀ th ∈ sys.threads, ThreadAll U w uses sys.shared th
+
+theorem FindOK.notR {U : Universe} {w : World} {s : CState} {g : Goal} {st : TState}
+    (h : FindOK U w s g st) : st.isR = false := by
+  cases st <;> first | rfl | cases h
+
+theorem sched_comb {U : Universe} {uses : List Use} (hc : consistent U uses) (w : World) {sys : Sys}
+    (hI : CombInv U w uses sys) (i : Nat) :
+    CombInv U w uses (sched U w sys i) ∧
+      ∀ d, Full U w sys.shared d → Full U w (sched U w sys i).shared d := by
+  unfold sched
+  cases hth : sys.threads[i]? with
+  | none => exact ⟨hI, fun _ h => h⟩
+  | some th =>
+    have hmem : th ∈ sys.threads := List.mem_of_getElem? hth
+    have hok := hI.threads th hmem
+    have key : th.st.isR = false ∧
+        CacheInv U uses (stepT U w sys.shared th.st).1.cache ∧
+        (∀ d, Full U w sys.shared d → Full U w (stepT U w sys.shared th.st).1 d) ∧
+        (Full U w sys.shared sys.shared.ref →
+          Full U w (stepT U w sys.shared th.st).1 (stepT U w sys.shared th.st).1.ref) ∧
+        ((stepT U w sys.shared th.st).1.sysModules = w.mods + 1 →
+          Full U w (stepT U w sys.shared th.st).1 (stepT U w sys.shared th.st).1.ref) ∧
+        ThreadAll U w uses (stepT U w sys.shared th.st).1 ⟨th.prog, (stepT U w sys.shared th.st).2⟩ := by
+      unfold ThreadAll at hok ⊢
+      cases hp : th.prog with
+      | build c p =>
+        simp only [hp] at hok ⊢
+        obtain ⟨h1, h2⟩ := stepT_build_inv hc w hI.cache hok.1 hok.2
+        obtain ⟨_, _, h3, h4, h5⟩ := stepT_notXR U w sys.shared th.st hok.2.notX hok.2.notR
+        refine ⟨hok.2.notR, h1, ?_, ?_, ?_, hok.1, h2⟩
+        · intro d hf; unfold Full at hf ⊢; rw [h3]; exact hf
+        · intro hf; unfold Full at hf ⊢; rw [h3, h4]; exact hf
+        · intro hs; rw [h5] at hs; have := hI.stamp hs; unfold Full at this ⊢; rw [h3, h4]; exact this
+      | lookup k q =>
+        simp only [hp] at hok ⊢
+        obtain ⟨h0, h1, h2, h3, h4⟩ := stepT_find_inv hI.stamp hok hok.lookup_notS
+        exact ⟨hok.notR, by rw [h0]; exact hI.cache, h1, h2, h3, h4⟩
+      | scan names =>
+        simp only [hp] at hok ⊢
+        by_cases hS : th.st.isS = false
+        · obtain ⟨h0, h1, h2, h3, h4⟩ := stepT_find_inv hI.stamp hok.2 hS
+          exact ⟨hok.2.notR, by rw [h0]; exact hI.cache, h1, h2, h3, hok.1, h4⟩
+        · cases hs : th.st with
+          | sScan names' d todo n0 acc =>
+            have hst := hok.2
+            rw [hs] at hst
+            have hn : names' = names := by
+              have := hst.1
+              cases this
+              rfl
+            subst hn
+            obtain ⟨h0, h1, h2, h3, h4⟩ :=
+              stepT_scan_inv hc hI.cache (fun c hcm => (hok.1 c hcm).1) (fun c hcm => (hok.1 c hcm).2) hst
+            refine ⟨rfl, h0, ?_, ?_, ?_, hok.1, h4⟩
+            · intro d' hf; unfold Full at hf ⊢; rw [h1]; exact hf
+            · intro hf; unfold Full at hf ⊢; rw [h1, h2]; exact hf
+            · intro hs'; rw [h3] at hs'
+              have := hI.stamp hs'; unfold Full at this ⊢; rw [h1, h2]; exact this
+          | _ => simp [hs, TState.isS] at hS
+      | reset => simp only [hp] at hok
+    have hmono := stepT_cache_mono U w sys.shared th.st key.1
+    refine ⟨⟨key.2.1, key.2.2.2.2.1, ?_⟩, key.2.2.1⟩
+    intro th' hth'
+    cases List.mem_or_eq_of_mem_set hth' with
+    | inr h => rw [h]; exact key.2.2.2.2.2
+    | inl h =>
+      have hok' := hI.threads th' h
+      unfold ThreadAll at hok' ⊢
+      cases hp : th'.prog with
+      | build c p =>
+        simp only [hp] at hok' ⊢
+        exact ⟨hok'.1, hok'.2.mono (hmono c)⟩
+      | lookup k q =>
+        simp only [hp] at hok' ⊢
+        exact hok'.mono key.2.2.1 key.2.2.2.1
+      | scan names =>
+        simp only [hp] at hok' ⊢
+        exact ⟨hok'.1, hok'.2.mono key.2.2.1 key.2.2.2.1⟩
+      | reset => simp only [hp] at hok'
+
+theorem runSched_comb {U : Universe} {uses : List Use} (hc : consistent U uses) (w : World) :
+    ∀ (schedule : List Nat) (sys : Sys), CombInv U w uses sys →
+      CombInv U w uses (runSched U w sys schedule) ∧
+        ∀ d, Full U w sys.shared d → Full U w (runSched U w sys schedule).shared d
+  | [], _, h => ⟨h, fun _ hf => hf⟩
+  | i :: rest, _, h => by
+    obtain ⟨h1, h2⟩ := sched_comb hc w h i
+    obtain ⟨h3, h4⟩ := runSched_comb hc w rest _ h1
+    exact ⟨h3, fun d hf => h4 d (h2 d hf)⟩
+
+/-- every unbuildable-free index is safe to scan, or nobody scans -/
+def scanSafe (U : Universe) (w : World) (progs : List Prog) : Prop :=
+  noScan progs ∨ ∀ c ∈ indexedClasses (pureIndex U w.loaded), buildable U c = true
+
+instance (U : Universe) (w : World) (progs : List Prog) : Decidable (scanSafe U w progs) :=
+  inferInstanceAs (Decidable (_ ∨ _))
+
+theorem mem_progUsesAll_build (U : Universe) (w : World) : ∀ (progs : List Prog) (c : ClassId)
+    (p : Option Str), Prog.build c p ∈ progs → (c, p) ∈ progUsesAll U w progs
+  | [], _, _, h => by cases h
+  | pr :: rest, c, p, h => by
+    cases List.mem_cons.mp h with
+    | inl h => subst h; simp [progUsesAll]
+    | inr h =>
+      have ih := mem_progUsesAll_build U w rest c p h
+      cases pr <;> simp only [progUsesAll] <;> first
+        | exact ih
+        | exact List.mem_cons_of_mem _ ih
+        | exact List.mem_append_right _ ih
+
+theorem mem_progUsesAll_scan (U : Universe) (w : World) : ∀ (progs : List Prog) (names : List Str),
+    Prog.scan names ∈ progs → ∀ c ∈ indexedClasses (pureIndex U w.loaded),
+      (c, none) ∈ progUsesAll U w progs
+  | [], _, h, _, _ => by cases h
+  | pr :: rest, names, h, c, hc => by
+    cases List.mem_cons.mp h with
+    | inl h =>
+      subst h
+      simp only [progUsesAll]
+      exact List.mem_append_left _ (List.mem_map.mpr ⟨c, hc, rfl⟩)
+    | inr h =>
+      have ih := mem_progUsesAll_scan U w rest names h c hc
+      cases pr <;> simp only [progUsesAll] <;> first
+        | exact ih
+        | exact List.mem_cons_of_mem _ ih
+        | exact List.mem_append_right _ ih
+
+theorem CombInv.start (U : Universe) (w : World) (progs : List Prog) (hnr : noReset progs)
+    (hss : scanSafe U w progs) (s0 : State)
+    (hc0 : CacheInv U (progUsesAll U w progs) s0.cache)
+    (h0 : s0.sysModules = w.mods + 1 → s0.xsi = pureIndex U w.loaded) :
+    CombInv U w (progUsesAll U w progs) (Sys.start s0 progs) := by
+  refine ⟨hc0, ?_, ?_⟩
+  · intro hs
+    simp only [Sys.start, CState.ofState] at hs ⊢
+    simp [Full, h0 hs]
+  · intro th hth
+    simp only [Sys.start, List.mem_map] at hth
+    obtain ⟨pr, hpr, rfl⟩ := hth
+    cases pr with
+    | build c p => exact ⟨mem_progUsesAll_build U w progs c p hpr, rfl, rfl⟩
+    | reset => exact absurd rfl (hnr _ hpr)
+    | lookup k q => exact FindOK.start k q
+    | scan names =>
+      refine ⟨?_, rfl, trivial⟩
+      intro c hcm
+      refine ⟨mem_progUsesAll_scan U w progs names hpr c hcm, ?_⟩
+      cases hss with
+      | inl h => exact absurd rfl (h _ hpr names)
+      | inr h => exact h c hcm
 
 end Xs.Ctx
